@@ -8,11 +8,11 @@ class C20(Prop):
     n_quick, n_thorough, shard = 300, 6000, 100
     ready = True
     level = "proof"
-    rule = 'histories = scripted witnesses (C19 finding, override, maxReaders, on-demand cycles) + random operation sequences (5-40 ops: Describe, AddPublisher, RemovePublisher, AddReader, RemoveReader, StaticReady/NotReady, TimerFire of each of the 4 timers, ReloadConf, Close, ops after Close) over random confs (publisher / runOnDemand / static / static on-demand, overridePublisher, maxReaders -1..3, every hook on/off), run on a real core.path; per operation the observed events (parent callbacks, Close() calls, hook and source log lines, answers) are compared with the model inside Coq; non-trivial = at least one stream was created; distinct = distinct (conf, history, observations)'
+    rule = 'histories = scripted witnesses (C19 finding, override, maxReaders, on-demand cycles) + random operation sequences (5-40 ops: Describe, AddPublisher, RemovePublisher, AddReader, RemoveReader, StaticReady/NotReady, TimerFire of each of the 4 timers, ReloadConf, Close, ops after Close) over random confs (publisher / runOnDemand / static / static on-demand / alwaysAvailable publisher / alwaysAvailable static (30%), overridePublisher, maxReaders -1..3, every hook on/off; publishers offer the tracks of the stream or, 1 in 3, tracks that SubStream.Initialize of an alwaysAvailable stream refuses; scripted alwaysAvailable histories: override refused, Close while online, static, maxReaders), run on a real core.path; per operation the observed events (parent callbacks, Close() calls, hook and source log lines, answers) and the identity of the current sub-stream of the stream after the step (offline / handed to publisher p / static / none, read from stream.Stream.subStream through reflect) are compared with the model inside Coq; non-trivial = at least one stream was created; distinct = distinct (conf, history, observations)'
     trusted_base = ['Coq 8.16.1 kernel + VM (vm_compute for cases and for the _refuted witness)', 'in-package Go driver harness/inpkg/internal/core/zz_verif_pathsm_test.go (real core.path, recording parent, fake publishers/readers; timers fired through Stop()/Reset(0))', 'model Model/PathSM.v hand-written (transliteration of internal/core/path.go handlers, internal/hooks closures, staticsources.Handler start/stop protocol), tied by correspondence on every run']
-    assumptions = ['the path goroutine handles one message at a time (single select loop), so its behaviour is a step function', 'hot reload (doReloadConf) changes only fields outside the model (pathConfCanBeUpdated); alwaysAvailable, redirect, fallback, recording are not modelled and not generated', 'conf.Path.validate: runOnDemand only with source: publisher (conf_ok)', 'static source instances alternate SetReady / SetNotReady while their handler runs (protocol of internal/staticsources/handler.go, played by the driver)']
+    assumptions = ['the path goroutine handles one message at a time (single select loop), so its behaviour is a step function', 'hot reload (doReloadConf) changes only fields outside the model (pathConfCanBeUpdated); redirect, fallback, recording are not modelled and not generated', 'conf.Path.validate: runOnDemand only with source: publisher; alwaysAvailable excludes sourceOnDemand, runOnDemand, runOnUnDemand (conf_ok)', 'on alwaysAvailable paths the static source always offers compatible tracks (only publishers are generated with refused tracks); Stream.Initialize / StartOfflineSubStream do not fail for the configured G711 track', 'static source instances alternate SetReady / SetNotReady while their handler runs (protocol of internal/staticsources/handler.go, played by the driver)']
     manifest = dict(
-        text='Coq theorems (all histories, all hook configurations): for runOnAvailable/runOnUnavailable (ready/not-ready), runOnOnline/runOnOffline and runOnDemand/runOnUnDemand the hook calls strictly alternate open/close starting with open, the log-visible start/stop(/launch) lines alternate likewise, and after Close no pair is open. Tied to path.go and internal/hooks/*.go by the shared path driver observing the hook log lines.',
+        text='Coq theorems (all histories, all hook configurations): for runOnAvailable/runOnUnavailable (ready/not-ready), runOnOnline/runOnOffline and runOnDemand/runOnUnDemand the hook calls strictly alternate open/close starting with open, the log-visible start/stop(/launch) lines alternate likewise, and after Close no pair is open; alwaysAvailable paths included (available pair opened by initialize(), online pair following the publishers / the static source, both closed by Close). Tied to path.go and internal/hooks/*.go by the shared path driver observing the hook log lines.',
         note='Partial: per-reader (runOnRead) and per-connection (runOnConnect) hooks live in the protocol servers and are not covered by this model; the child processes themselves are started asynchronously by externalcmd and are not observed.',
         technique="Coq proof: state invariant (finite part checked per operation by case enumeration, list part compositionally) lifted to all histories by induction (Lib/Trace.v); correspondence by vm_compute over driver cases")
 
